@@ -5,8 +5,9 @@
 (* Two detector slots d1, d2 and their scorer objects.  With Sharing =    *)
 (* "shared" both detectors hold THE SAME cost object c0 (aliasing), with  *)
 (* "private" each has its own (c1, c2).  A history is any sequence of     *)
-(* set_params / clone / fit / update / predict / transform /              *)
-(* transform_scores calls on the detectors and fit / evaluate calls on    *)
+(* set_params / clone / deepcopy / fit / update / predict / transform /   *)
+(* transform_scores / fit_predict / fit_transform / update_predict calls  *)
+(* on the detectors and fit / evaluate calls on                            *)
 (* the scorer objects, over several datasets.                              *)
 (*                                                                         *)
 (* ABSTRACT state (property layer): params, fitted, train -- train is the *)
@@ -131,6 +132,38 @@ Call(m, d, a) ==
     /\ CallBody(m, d, a, CostOf(d), Refit(CostOf(d), a),        \* the data the scorer actually evaluates
                 [m |-> m, ps |-> params[d], train |-> fitData[d], arg |-> Refit(CostOf(d), a)])
 
+\* ---- compositions offered by the base class: fit_predict / fit_transform = fit ; call,  update_predict = update ; predict
+FitCall(m, d, a) ==
+    LET base == IF m = "fit_predict" THEN "predict" ELSE "transform"
+        c == CostOf(d)
+        term == [m |-> base, ps |-> params[d], train |-> <<a>>, arg |-> <<a>>]
+    IN /\ fitted' = [fitted EXCEPT ![d] = TRUE] /\ train' = [train EXCEPT ![d] = <<a>>]
+       /\ fitData' = [fitData EXCEPT ![d] = <<a>>]
+       /\ costData' = [costData EXCEPT ![c] = IF Leak = "refit_if_unfit" /\ costData[c] # NoData /\ ~TunesOnFit(d) THEN costData[c] ELSE <<a>>]
+       /\ lastFit' = [lastFit EXCEPT ![c] = <<a>>]
+       /\ ret' = [term EXCEPT !.arg = costData'[c]] /\ scores' = [scores EXCEPT ![d] = ret']
+       /\ exp' = term /\ Log(m, d, a, term)
+       /\ UNCHANGED <<params, costOf, tunes>>
+UpdatePredict(d, a) ==
+    /\ fitted[d] /\ fitData[d] # <<>> /\ Cols(a) = Cols(train[d][1])
+    /\ LET c == CostOf(d)
+           tr == Append(train[d], a)
+           fd == IF Leak = "update_replaces" THEN <<a>> ELSE Append(fitData[d], a)
+           term == [m |-> "predict", ps |-> params[d], train |-> tr, arg |-> <<a>>]
+       IN /\ train' = [train EXCEPT ![d] = tr] /\ fitData' = [fitData EXCEPT ![d] = fd]
+          /\ costData' = [costData EXCEPT ![c] = IF Leak = "refit_if_unfit" /\ costData[c] # NoData /\ ~TunesOnFit(d) THEN costData[c] ELSE <<a>>]
+          /\ lastFit' = [lastFit EXCEPT ![c] = <<a>>]
+          /\ ret' = [m |-> "predict", ps |-> params[d], train |-> fd, arg |-> costData'[c]] /\ scores' = [scores EXCEPT ![d] = ret']
+          /\ exp' = term /\ Log("update_predict", d, a, term)
+    /\ UNCHANGED <<params, fitted, costOf, tunes>>
+\* ---- copy.deepcopy of a (possibly fitted) detector: same abstract state, its own copy of the scorer
+DeepCopy(d) ==
+    LET c == CostOf(d) pc == Private(d) IN
+    /\ costOf' = [costOf EXCEPT ![d] = pc]
+    /\ costData' = [costData EXCEPT ![pc] = costData[c]] /\ lastFit' = [lastFit EXCEPT ![pc] = lastFit[c]]
+    /\ ret' = Ok /\ exp' = Ok /\ Log("deepcopy", d, "-", Ok)
+    /\ UNCHANGED <<params, fitted, train, tunes, fitData, scores>>
+
 \* ---- the scorer objects used directly -----------------------------------------------------------
 ScorerFit(c, a) ==
     /\ costData' = [costData EXCEPT ![c] = <<a>>] /\ lastFit' = [lastFit EXCEPT ![c] = <<a>>]
@@ -148,6 +181,9 @@ Next ==
        \/ \E d \in Dets : Clone(d)
        \/ \E d \in Dets, a \in Data : Fit(d, a) \/ Update(d, a)
        \/ \E d \in Dets, a \in Data, m \in {"predict", "transform", "transform_scores"} : Call(m, d, a)
+       \/ \E d \in Dets, a \in Data, m \in {"fit_predict", "fit_transform"} : FitCall(m, d, a)
+       \/ \E d \in Dets, a \in Data : UpdatePredict(d, a)
+       \/ \E d \in Dets : DeepCopy(d)
        \/ \E c \in {costOf[d] : d \in Dets}, a \in Data : ScorerFit(c, a)
        \/ \E c \in {costOf[d] : d \in Dets} : ScorerEvaluate(c)
 
@@ -166,7 +202,9 @@ HistHash == SumOver([i \in 1..Len(hist) |->
                 (i * i * 31 + 7) * (IF hist[i].op = "fit" THEN 3 ELSE IF hist[i].op = "predict" THEN 5
                                     ELSE IF hist[i].op = "update" THEN 11 ELSE IF hist[i].op = "transform" THEN 13
                                     ELSE IF hist[i].op = "transform_scores" THEN 17 ELSE IF hist[i].op = "clone" THEN 19
-                                    ELSE IF hist[i].op = "set_params" THEN 23 ELSE IF hist[i].op = "scorer_fit" THEN 29 ELSE 37)
+                                    ELSE IF hist[i].op = "set_params" THEN 23 ELSE IF hist[i].op = "scorer_fit" THEN 29
+                                    ELSE IF hist[i].op = "fit_predict" THEN 59 ELSE IF hist[i].op = "fit_transform" THEN 61
+                                    ELSE IF hist[i].op = "update_predict" THEN 67 ELSE IF hist[i].op = "deepcopy" THEN 71 ELSE 37)
                 + (IF hist[i].obj \in {"d2", "c2"} THEN 41 * i ELSE 0)
                 + (IF hist[i].arg = "B" THEN 43 * i ELSE IF hist[i].arg = "C" THEN 47 * i ELSE IF hist[i].arg = "A2" THEN 53 * i ELSE 0)],
             1..Len(hist))
